@@ -1,9 +1,11 @@
 #!/usr/bin/env python3
-"""usage: refreshmeta.py <seed id> ...
+"""usage: refreshmeta.py [--force] <seed id> ...
+(--force: also rewrite the failing obligation of seeds whose verdict did not change)
 Re-runs tools/selftest.sh for the given seeds and records a changed detection verdict
 (now-detected) with the first failing obligations in seeded/<id>/meta.json."""
 import sys, subprocess, json, re
-for sid in sys.argv[1:]:
+force = "--force" in sys.argv
+for sid in [a for a in sys.argv[1:] if a != "--force"]:
     out = subprocess.run(["/verif/tools/selftest.sh", sid], capture_output=True, text=True).stdout.strip()
     print(out[:300])
     m = re.search(r"expected=(\w+) detected=(\w+) (\S+)\s*(.*)", out)
@@ -12,7 +14,7 @@ for sid in sys.argv[1:]:
     det = m.group(2) == "True"
     p = f"/verif/seeded/{sid}/meta.json"
     meta = json.load(open(p))
-    if meta.get("detected_by_check") != det:
+    if meta.get("detected_by_check") != det or (force and det):
         meta["detected_by_check"] = det
         ob = re.search(r"obligation=(\S+)", m.group(4))
         meta["failing_obligations"] = [ob.group(1)] if ob else ([m.group(4)[:200]] if det else [])
